@@ -1,10 +1,13 @@
 #!/bin/bash
-# lib/reseed.sh : re-verifies every seeded change kept under /verif/seeded against the current /repo and /verif.
+# lib/reseed.sh [-P n] : re-verifies every seeded change kept under /verif/seeded against the current /repo and /verif
+# (n at a time, default 4; per-seed output in /dev/shm/reseed-logs/), then rewrites every meta.json.
 cd "$(dirname "$0")/.."
-for d in seeded/*/; do
-  n=$(basename "$d"); p=${n%%-*}
-  extra=""
-  case "$n" in C14-B) extra="C12";; C13-B) extra="C20";; C04-A) extra="C13 C05";; C01-D) extra="C15";; C06-C) extra="C07";; C04-C) extra="C06";; C12-C) extra="C15";; C16-C) extra="C11";; C16-D) extra="C15";; C01-F) extra="C15";; C09-F) extra="C03";; C12-G) extra="C18";; C16-H) extra="C18";; C01-I|C01-J) extra="C11";; C05-J) extra="C10";; C08-I) extra="C15";; C12-I) extra="C11";; C14-I) extra="C18";; C16-J) extra="C15";; esac
-  lib/seedcheck.sh "/verif/seeded/$n" "$n" $p $extra 2>&1 | grep -v WARNING
-done
+P=4; [ "${1:-}" = "-P" ] && P=$2
+mkdir -p /dev/shm/reseed-logs
+extra_for() {
+  case "$1" in C14-B) echo "C12";; C13-B) echo "C20";; C04-A) echo "C13 C05";; C01-D) echo "C15";; C06-C) echo "C07";; C04-C) echo "C06";; C12-C) echo "C15";; C16-C) echo "C11";; C16-D) echo "C15";;
+    C01-F) echo "C15";; C09-F) echo "C03";; C12-G) echo "C18";; C16-H) echo "C18";; C01-I|C01-J) echo "C11";; C05-J) echo "C10";; C08-I) echo "C15";; C12-I) echo "C11";; C14-I) echo "C18";; C16-J) echo "C15";; esac
+}
+export -f extra_for
+ls -d seeded/*/ | xargs -n1 basename | xargs -P "$P" -I{} bash -c 'n={}; p=${n%%-*}; lib/seedcheck.sh "/verif/seeded/$n" "$n" $p $(extra_for "$n") > /dev/shm/reseed-logs/$n.log 2>&1; grep -h "check C" /dev/shm/reseed-logs/$n.log | sed "s/^/$n /" | cut -c1-160'
 python3 lib/seedmeta.py
